@@ -60,6 +60,13 @@ CHECKS = {
         note="Trusted: CPython ast; the accepted skip guards (no masses / no force constants yet) and the net-identity exception (show_drift_force_constants) are listed in the rule source. The documented zero-copy contract of Phonopy.force_constants is not judged. One known finding (deprecated frequency_scale_factor).",
         ref="DESIGN.md §3 C15",
     ),
+    "C16": dict(
+        technique="static analysis on Python ast: extraction of the yaml keys the dumpers can emit (string/f-string templates, holes resolved through call-site literals) and of the keys the loaders read (taint from self._yaml), set agreement for the fields the property names, legacy-key table; format-string tokenisation of the whitespace-parsed text writers; who-passes-what rule for save()",
+        level="other",
+        text="Decides the necessary conditions of write->read identity that are properties of the pair of functions: both sides use the same key names for every field the property lists, every other key the loader reads is emitted or a documented legacy key, save() hands all ten pieces of state to the dumper, numeric columns of FORCE_SETS/FORCE_CONSTANTS/BORN cannot fuse whatever the magnitude, and the 6-column split matches the writer. Does not decide numerical equality after a round trip or hdf5 contents.",
+        note="Trusted: CPython ast; legacy keys are a frozen table with one reason each; the latent prefix mismatch of the v2.23 legacy parser is reported as a note, not a finding.",
+        ref="DESIGN.md §3 C16",
+    ),
     "C17": dict(
         technique="static analysis on Python ast: dispatch-table extraction and exhaustiveness over the calculator registry with callee existence/arity resolution, constant folding of units.py against a dimensional model of each unit string (factor, NAC factor, lengths, forces, conversion table), atom-order domain typing (original / sorted-by-species / permutation / grouped counts) in the structure writers, reader-tuple vs consumer shape agreement, refusal-path rule for create_FORCE_SETS",
         level="other",
